@@ -272,7 +272,7 @@ PLAN["C06"] = dict(
 )
 
 PLAN["C07"] = dict(
-    technique="model-based PBT: header blocks rendered from a structured spec (names, whitespace, folds, line ends, repeated headers), expected N/flags/type/name/value/first-of-type known by construction",
+    technique="model-based PBT: header blocks rendered from a structured spec (names, whitespace, folds, line ends, repeated headers), expected N/flags/type/name/value/first-of-type known by construction; plus exhaustive enumeration of all small blocks (1-2 headers x every whitespace / fold / line-end placement x capacities x typed or generic values)",
     level_text=("Exploration: 1..60 generated header lines - known names in any case or compact form, one-edit neighbours, "
                 "random tokens; SP/HT before the colon; LWS and folds (CRLF SP, CR SP, LF HT) after the colon, inside and after "
                 "the value; CRLF / lone CR / lone LF line ends; empty values; repeated headers - parsed with hb == nil (generic "
@@ -285,8 +285,10 @@ PLAN["C07"] = dict(
     rule=("case = (list of header specs, blank line, tail, typed?, capacities); non-trivial = >= 2 headers and at least one "
           "of: fold, lone CR/LF line end, whitespace before the colon, empty value, compact or re-cased known name, capacity < N; "
           "distinct by case hash"),
-    quick=[dict(test="TestC07Rapid", checks=12000, shards=12, counts=["C07.block"])],
-    thorough=[dict(test="TestC07Rapid", checks=1000000, shards=16, counts=["C07.block"], timeout=5400)],
+    quick=[dict(test="TestC07Rapid", checks=12000, shards=12, counts=["C07.block"]),
+           dict(kind="enum", test="TestC07Enum", solo=True, timeout=900)],
+    thorough=[dict(test="TestC07Rapid", checks=1000000, shards=16, counts=["C07.block"], timeout=5400),
+              dict(kind="enum", test="TestC07Enum", solo=True, timeout=5400, env={"VERIF_DEPTH": 1})],
 )
 
 PLAN["C08"] = dict(
